@@ -22,7 +22,7 @@ type StaticDecl struct {
 
 func parseStaticDecl(kind, rest string) (*StaticDecl, error) {
 	sep := "="
-	if kind == "callsonly" {
+	if kind == "callsonly" || kind == "mapwritesonly" {
 		sep = ":"
 	}
 	i := strings.Index(rest, sep)
@@ -110,6 +110,48 @@ func (p *Prog) StaticObligations(prop string) []*Obligation {
 			}
 			if writesElsewhere > 0 {
 				ok = false
+			}
+		case "mapwritesonly":
+			// Subject "Type.field": functions that update or delete entries of that map field
+			parts := strings.SplitN(d.Subject, ".", 2)
+			if len(parts) != 2 {
+				ok = false
+				break
+			}
+			seenF := map[string]bool{}
+			isField := func(v ssa.Value) bool {
+				u, isU := v.(*ssa.UnOp)
+				if !isU {
+					return false
+				}
+				fa, isFA := u.X.(*ssa.FieldAddr)
+				if !isFA {
+					return false
+				}
+				t, st := structOf(fa.X.Type())
+				return st != nil && typeBase(t) == parts[0] && st.Field(fa.Field).Name() == parts[1]
+			}
+			for key, f := range p.Funcs {
+				if !strings.HasPrefix(key, d.Pkg+"::") || f.Blocks == nil {
+					continue
+				}
+				for _, b := range f.Blocks {
+					for _, in := range b.Instrs {
+						switch x := in.(type) {
+						case *ssa.MapUpdate:
+							if isField(x.Map) {
+								seenF[FuncName(f)] = true
+							}
+						case *ssa.Call:
+							if bi, isB := x.Call.Value.(*ssa.Builtin); isB && (bi.Name() == "delete" || bi.Name() == "clear") && len(x.Call.Args) > 0 && isField(x.Call.Args[0]) {
+								seenF[FuncName(f)] = true
+							}
+						}
+					}
+				}
+			}
+			for n := range seenF {
+				got = append(got, n)
 			}
 		case "callsonly":
 			f := p.Funcs[d.Pkg+"::"+d.Subject]
